@@ -1011,7 +1011,7 @@ func c17redialCase(r *vh.Run, modes string, end byte) {
 		m = "-"
 	}
 	line := fmt.Sprintf("c17 redial %s %c", m, end)
-	oracleOnly := end == 'S' // Close while a dial is in flight that then succeeds: judged by the property's clauses only
+	oracleOnly := false // every end mode, also 'S' (Close while a dial is in flight that then succeeds), is predicted by the model
 	model := ""
 	if !oracleOnly {
 		model = r.Model(line)
